@@ -98,6 +98,11 @@ FUNCS = {
     # F5 tokenizers (dmaxp and ptr are in-out)
     "strtok_s":      ("_strtok_s_chk", "p", "pNpQn", 1),
     "wcstok_s":      ("_wcstok_s_chk", "p", "pNpQn", 4),
+    # the N/Q argkinds always pass a slot address: extra bindings to pass ptr == NULL / dmaxp == NULL
+    "strtok_s_np":   ("_strtok_s_chk", "p", "pNppn", 1),
+    "wcstok_s_np":   ("_wcstok_s_chk", "p", "pNppn", 4),
+    "strtok_s_nm":   ("_strtok_s_chk", "p", "pppQn", 1),
+    "wcstok_s_nm":   ("_wcstok_s_chk", "p", "pppQn", 4),
     # F9
     "strerror_s":    ("_strerror_s_chk", "e", "pnin", 1),
 }
